@@ -296,7 +296,15 @@ def run_sharded(ctx, argv_for_shard, shard_paths, timeout=3000):
             merged['examples'][k] += v[:max(0, 3 - len(merged['examples'][k]))]
         for k, v in r.get('ops', {}).items():
             merged['ops'][k] = merged['ops'].get(k, 0) + v
-        merged['samples'] += r.get('samples', [])[:max(0, 3 - len(merged['samples']))]
+        merged['samples'] += (r.get('samples') or [])[:max(0, 3 - len(merged['samples']))]
+        for k, v in (r.get('drift') or {}).items():
+            merged.setdefault('drift', {})
+            merged['drift'][k] = merged['drift'].get(k, 0) + v
+        merged.setdefault('drift_examples', [])
+        merged['drift_examples'] += (r.get('drift_examples') or [])[:max(0, 3 - len(merged['drift_examples']))]
+        for k in ('calls', 'clean_runs'):
+            if k in r:
+                merged[k] = merged.get(k, 0) + r[k]
     return merged
 
 
@@ -337,12 +345,15 @@ def validate_trace(ctx, moddir, module, cfg, tracefile, max_rounds=6, key_of=Non
         if bad < 1 or bad > len(lines):
             raise Infra('cannot locate rejected line (depth %d of %d)' % (bad, len(lines)))
         # the history containing line `bad`
-        start = bad - 1
-        while start > 0 and '"ev":"reset"' not in lines[start]:
-            start -= 1
-        end = bad
-        while end < len(lines) and '"ev":"reset"' not in lines[end]:
-            end += 1
+        if nhist == 0:
+            start, end = bad - 1, bad      # independent lines
+        else:
+            start = bad - 1
+            while start > 0 and '"ev":"reset"' not in lines[start]:
+                start -= 1
+            end = bad
+            while end < len(lines) and '"ev":"reset"' not in lines[end]:
+                end += 1
         hist = lines[start:bad]
         ev = json.loads(lines[bad - 1])
         rejected.append(dict(line=bad, event=ev, history=hist))
